@@ -196,7 +196,7 @@ def impl(case):
             try:
                 r2 = yp.evaluate_bounded(q2, proj2, lim2)
             finally:
-                state['nested'] = [sys.getrecursionlimit() == before, not v2._is_bound, q2.gi_frame is None]
+                state['nested'] = [sys.getrecursionlimit() == before, not v2._is_bound, getattr(q2, 'gi_frame', None) is None]
             ans = [['i', 1000 + len(r2)]]
             state['seen'].append(ans)
             return ans
@@ -206,6 +206,8 @@ def impl(case):
 
     rl_start = sys.getrecursionlimit()
     info = {}
+    W = E._VERIF_VARIABLES
+    bound_before = {id(v) for v in list(W) if v._is_bound} if W is not None else set()
 
     def call():
         cur = _depth() + 1                      # interpreter depth of the evaluate_bounded frame
@@ -230,9 +232,8 @@ def impl(case):
         return deep(n - 1)
 
     outcome = deep(case.get('extra_depth', 0))
-    info['closed'] = q.gi_frame is None
-    W = E._VERIF_VARIABLES
-    info['leaked'] = sum(1 for v in list(W) if v._is_bound) if W is not None else -1
+    info['closed'] = (q.gi_frame is None) if hasattr(q, 'gi_frame') else None      # None: not a generator object
+    info['leaked'] = sum(1 for v in list(W) if v._is_bound and id(v) not in bound_before) if W is not None else -1
     info['qbound'] = [i for i in range(nq) if T.vars[i]._is_bound]
     try:
         q.close()
@@ -373,7 +374,7 @@ def compare(case, io, mo):
     got = impl_outcome_as_model(io, case)
     if io['rl_after'] != m['hi_out']['rl']:
         return 'recursion limit afterwards: implementation %d, model %d' % (io['rl_after'], m['hi_out']['rl'])
-    if io['closed'] != m['hi_out']['closed']:
+    if io['closed'] is not None and io['closed'] != m['hi_out']['closed']:
         return 'query generator finished afterwards: implementation %s, model %s' % (io['closed'], m['hi_out']['closed'])
     lo, hi = m['lo_out']['outcome'], m['hi_out']['outcome']
     if same_outcome(got, lo) or same_outcome(got, hi):
@@ -406,7 +407,7 @@ def oracle(case, io):
         return '%d Variables are still bound after evaluate_bounded was left' % io['leaked']
     if io['qbound']:
         return 'query variables %s are still bound after evaluate_bounded was left' % io['qbound']
-    if not io['closed']:
+    if io['closed'] is False:
         return 'the query generator is still suspended after evaluate_bounded was left'
     if io.get('cyclic'):
         return None
